@@ -1,5 +1,6 @@
 """C04 — Content-Length bodies arrive byte-exact under any read fragmentation."""
 import itertools
+import json
 from io import BytesIO
 
 from props.common import FragStream, enc_str, enc_list, Reader, environ
@@ -12,7 +13,7 @@ N_THOROUGH = 6000
 THOROUGH_EXHAUSTIVE = True
 RULE = ('cases = corpus + random (data 0..48 bytes, Content-Length below/equal/above the data and negative, '
         'buffer 1..12, fragmentation schedules of short reads, early EOF, optional max_body_size), run through '
-        '_body_read directly and through Request.body (read twice, again through request.copy() after a partial read, again after a header is rewritten through Request.__setitem__ following a partial read, with wsgi.input a real io.BytesIO (recording subclass) holding more than the body or with a consumed prefix, and with WSGI extension flags / unrelated headers / other verbs in the environ: wsgi.input_terminated, Transfer-Encoding: identity, Expect, PUT/GET, HTTP/1.0, json/form content types), a fifth of them with a multipart Content-Type (closing delimiter + epilogue: the markup is fed while buffering); a seventh of the cases are op sequences on the family of request objects descending from one request by copy() (model/ReqBody.v: body.read(k), copy(), rewrites of Content-Length and of other headers, a new wsgi.input) compared output by output and stream by stream; thorough adds every schedule of length <= 5 over read '
+        '_body_read directly and through Request.body (read twice, again through request.copy() after a partial read, again after a header is rewritten through Request.__setitem__ following a partial read, with wsgi.input a real io.BytesIO (recording subclass) holding more than the body or with a consumed prefix, and with WSGI extension flags / unrelated headers / other verbs in the environ: wsgi.input_terminated, Transfer-Encoding: identity, Expect, PUT/GET, HTTP/1.0, json/form content types), a fifth of them with a multipart Content-Type (closing delimiter + epilogue: the markup is fed while buffering); a tenth go through Ombott.__call__ with the body read at several points of the life of the request (before_request hook, handler, the generator the handler returned, after_request hook); a seventh of the cases are op sequences on the family of request objects descending from one request by copy() (model/ReqBody.v: body.read(k), copy(), rewrites of Content-Length and of other headers, a new wsgi.input) compared output by output and stream by stream; thorough adds every schedule of length <= 5 over read '
         'caps {1,2,3,full} x body sizes 0..10 x buffers 1..4 x CL in {len-1,len,len+2} (exhaustive). '
         'non-trivial = at least two reads were issued and at least one of them was short or the body spilled; '
         'distinct by (len, cl, buf, schedule prefix actually consumed, via)')
@@ -83,6 +84,13 @@ def corpus():
         dict(data=list(range(30)), cl=0, buf=8, sched=[], maxb=None, via='request', bytesio=2),
         dict(data=list(range(9)), cl=9, buf=64, sched=[], maxb=None, via='request', bytesio=0, copy_after=3),
         dict(data=list(range(30)), cl=12, buf=8, sched=[], maxb=None, via='func', bytesio=3),
+        # through the WSGI application: the body is read at several points of the request's life — in a
+        # before_request hook, in the handler, in the generator the handler returned (which runs after _handle has
+        # returned), in an after_request hook — and must be the same first Content-Length bytes every time
+        dict(data=list(range(40)), cl=34, buf=8, sched=[5, 5], maxb=None, via='app', points=[['handler', 2], ['gen', None]]),
+        dict(data=list(range(40)), cl=34, buf=64, sched=[], maxb=None, via='app', points=[['before', None], ['handler', 3], ['gen', None], ['after', None]]),
+        dict(data=d20, cl=20, buf=4, sched=[0] * 30, maxb=None, via='app', points=[['gen', 1], ['gen', None]]),
+        dict(data=d20, cl=20, buf=4, sched=[], maxb=None, via='app', points=[['after', 5], ['gen', None]]),
         # op sequences on the family of request objects descending from one request by copy()
         # (model/ReqBody.v): ('body', r, k|None) ('copy', r) ('setcl', r, v) ('setother', r, which) ('setinput', r, data, sched)
         dict(data=list(range(1, 8)), cl=5, buf=3, sched=[0, 1], maxb=None, via='ops',
@@ -126,6 +134,15 @@ def gen(rng, n):
             case['via'] = 'ops'
             case['maxb'] = None
             case['ops'] = _gen_ops(rng, ln)
+            yield case
+            continue
+        if rng.random() < 0.1:
+            case['via'] = 'app'
+            case['points'] = [[rng.choice(['before', 'handler', 'gen', 'after']), rng.choice([None, None, 0, 1, 2, ln])]
+                              for _ in range(rng.randrange(1, 5))]
+            if not any(pt[1] is None for pt in case['points']):
+                case['points'].append([rng.choice(['handler', 'gen']), None])
+            case['sched'] = case['sched'][:20]
             yield case
             continue
         if case['via'] == 'request' and rng.random() < 0.3:
@@ -245,6 +262,60 @@ def _run_ops(case):
     return dict(status='ops', outs=outs, streams=[dict(reqs=s.log, pos=s.pos) for s in streams])
 
 
+def _run_app(case):
+    """the body as seen at several points of the request's life inside Ombott.__call__"""
+    import ombott
+    st = FragStream(case['data'], case['sched'])
+    app = ombott.Ombott(dict(max_memfile_size=case['buf'], max_body_size=case['maxb'], catchall=False))
+    reads, spill = [], []
+    order = {'before': 0, 'handler': 1, 'after': 2, 'gen': 3}      # the generator body runs after _handle returned
+    pts = sorted(case['points'], key=lambda pt: order[pt[0]])
+
+    def look(where):
+        for w, k in pts:
+            if w == where:
+                b = app.request.body
+                spill.append(not isinstance(b, BytesIO))
+                reads.append([w, k, list(b.read() if k is None else b.read(k))])
+
+    app.add_hook('before_request', lambda: look('before'))
+    app.add_hook('after_request', lambda: look('after'))
+
+    @app.route('/u', method='POST')
+    def handler():
+        look('handler')
+        if any(w == 'gen' for w, _ in pts):
+            def stream():
+                look('gen')
+                yield b'done'
+            return stream()
+        return 'done'
+    env = environ('POST', '/u', **{'wsgi.input': st})
+    if case['cl'] >= 0:
+        env['CONTENT_LENGTH'] = str(case['cl'])
+    else:
+        env.pop('CONTENT_LENGTH', None)
+    got = {}
+    try:
+        out = app(env, lambda s_, h, e=None: got.setdefault('st', s_))
+        body_out = b''.join(out)
+        if hasattr(out, 'close'):
+            out.close()
+    except Exception as e:
+        return dict(status='app raised %s: %s' % (type(e).__name__, str(e)[:80]), reqs=st.log, pos=st.pos)
+    if got.get('st', '').startswith('413'):
+        return dict(status='too_large', reqs=st.log, pos=st.pos)
+    if not got.get('st', '').startswith('200') or body_out != b'done':
+        return dict(status='app answered %s %r' % (got.get('st'), body_out[:40]), reqs=st.log, pos=st.pos)
+    full = [r for r in reads if r[1] is None]
+    whole = bytes(full[0][2]) if full else None
+    for w, k, got_b in reads:
+        want = whole if k is None else (whole[:k] if whole is not None else None)
+        if want is not None and bytes(got_b) != want:
+            return dict(status='unstable', first=list(whole), second=got_b, where='%s read(%s)' % (w, k))
+    return dict(status='ok', body=list(whole), spilled=any(spill), reqs=st.log, pos=st.pos)
+
+
 def thorough():
     for L in range(0, 6):
         for sched in itertools.product([0, 1, 2, 99], repeat=L):
@@ -263,6 +334,8 @@ def run_impl(case):
     from ombott import Request, HTTPError
     if case['via'] == 'ops':
         return _run_ops(case)
+    if case['via'] == 'app':
+        return _run_app(case)
     if case.get('bytesio') is not None:
         # the stream the model sees starts behind the consumed prefix; full reads
         pre = case['bytesio']
@@ -480,7 +553,8 @@ def key(case):
         return ('ops', len(case['data']), case['cl'], case['buf'], tuple(case['sched'][:8]),
                 tuple(tuple(map(lambda v: tuple(v) if isinstance(v, list) else v, o)) for o in case['ops']))
     return (len(case['data']), case['cl'], case['buf'], tuple(case['sched'][:8]), case['via'], case['maxb'],
-            bool(case.get('mp')), case.get('copy_after'), case.get('extra'), case.get('reheader'), case.get('bytesio'))
+            bool(case.get('mp')), case.get('copy_after'), case.get('extra'), case.get('reheader'), case.get('bytesio'),
+            json.dumps(case.get('points')))
 
 
 def classify(case, obs):
@@ -525,10 +599,13 @@ def shrink(case):
         yield dict(case, cl=case['cl'] - 1)
     if case['maxb'] is not None:
         yield dict(case, maxb=None)
+    if case.get('points') and len(case['points']) > 1:
+        for i in range(len(case['points'])):
+            yield dict(case, points=case['points'][:i] + case['points'][i + 1:])
     for k in ('copy_after', 'extra', 'reheader', 'mp', 'bytesio'):
         if case.get(k) is not None:
             c = dict(case); c.pop(k); yield c
-    if case['via'] != 'func' and not (case.get('extra') or case.get('reheader') or case.get('copy_after') is not None):
+    if case['via'] not in ('func', 'app') and not (case.get('extra') or case.get('reheader') or case.get('copy_after') is not None):
         yield dict(case, via='func')
 
 
